@@ -386,6 +386,50 @@ def work(item) -> Dict[str, Any]:
                 continue
             counters["objects"] = counters.get("objects", 0) + 1
             check_obj(obj, f"{which}.{n}/{prof}", problems, counters, is_msg)
+        # a value reached AFTER the object has been converted: every conversion is performed once on the maximum profile, then one
+        # field is written in place through the validated API (a nested struct's field, an element of a bound array, an element of a
+        # struct array) and every conversion must describe the object as it is now
+        import pyrtma.validators as V
+
+        for path, d in paths(cls):
+            obj = cls()
+            try:
+                fill(obj, "max")
+                for _, fn in roundtrips(obj):
+                    fn()
+                if is_msg:
+                    from pyrtma.message import Message
+                    from pyrtma.header import get_header_cls
+
+                    h0 = get_header_cls()()
+                    h0.msg_type, h0.num_data_bytes, h0.version = obj.type_id, ctypes.sizeof(obj), obj.type_hash
+                    Message(h0, obj).to_json()
+                    Message(h0, obj).to_json(minify=True)
+                before = bytes(obj)
+                if isinstance(d, V.ByteArray):
+                    tgt = obj
+                    for q in path[:-1]:
+                        tgt = tgt[q] if isinstance(q, int) else getattr(tgt, q)
+                    getattr(tgt, path[-1])[len(d) - 1] = 1
+                    how = "last element written in place"
+                elif isinstance(d, V.ArrayField):
+                    tgt = obj
+                    for q in path[:-1]:
+                        tgt = tgt[q] if isinstance(q, int) else getattr(tgt, q)
+                    getattr(tgt, path[-1])[len(d) - 1] = field_values(d._validator, "zero")[0]
+                    how = "last element written in place"
+                elif len(path) > 1:
+                    set_path(obj, path, field_values(d, "zero")[0])
+                    how = "nested field assigned"
+                else:
+                    continue
+                if bytes(obj) == before:
+                    continue
+            except Exception as e:
+                problems.append({"kind": "value-not-constructible", "what": f"{which}.{n}.{path} edited after conversion", "exc": f"{type(e).__name__}: {str(e)[:80]}"})
+                continue
+            counters["objects"] = counters.get("objects", 0) + 1
+            check_obj(obj, f"{which}.{n}/max, then {'.'.join(map(str, path))}: {how} after a first conversion", problems, counters, is_msg and len(bytes(obj)) < 4096)
         if mode == "paths":
             for path, d in paths(cls):
                 for v in leaf_values(d):
